@@ -2,6 +2,8 @@
 # usage: seed_eval.sh <patch.diff> <check ids...> -- applies the patch to /repo, runs the quick checks, reverts.
 P=$1; shift
 cd /verif
+case "$P" in /*) ;; *) P="/verif/$P";; esac
+[ -z "$(git -C /repo status --porcelain)" ] || { echo "/repo is not clean: refusing (another evaluation running?)"; exit 2; }
 git -C /repo apply "$P" || { echo "patch does not apply"; exit 2; }
 for id in "$@"; do
   echo "== $id"; timeout 1500 ./bin/kv check $id --tier ${TIER:-quick} 2>&1 | grep -v "^  signature\|^KNOWN-FINDING" | tail -${LINES_OUT:-6} | cut -c1-400; echo "exit=${PIPESTATUS[0]}"
